@@ -301,7 +301,7 @@ def conclude(ctx, mod, t0, evidence_path, args):
         by_backend[b] = by_backend.get(b, 0) + 1
         solver_s += v.result.get("seconds", 0)
     level = getattr(mod, "LEVEL", "proof")
-    n_obl = len(valid) + extra_obligations
+    n_obl = len(valid)   # a refuted obligation covered by a listed finding is replaced by its relativised form
     n_dis = len(discharged) + extra_discharged
     samples = [{"obligation": v.name, "kind": v.kind, "verdict": v.result["verdict"], "backend": v.result["backend"],
                 "seconds": round(v.result["seconds"], 3), "note": v.note, "smt2_bytes": len(v.smt2())} for v in (valid[:4] + refuted[:3])]
